@@ -82,6 +82,16 @@ M = [
       old="        if bytes.len() > (bits_precision as usize).div_ceil(8) {\n            return Err(DecodeError::InputSize);\n        }\n\n        let mut ret = Self::zero_with_precision(bits_precision);\n\n        for (chunk, limb) in bytes.rchunks",
       new="        let mut ret = Self::zero_with_precision(bits_precision);\n\n        for (chunk, limb) in bytes.rchunks",
       expect="c16.precguard|uint::boxed::encoding::<impl uint::boxed::BoxedUint>::from_be_slice"),
+ # --- rules added after seeded misses
+ dict(name="boxed_ct_eq_zip", prop="C06", file="src/uint/boxed/cmp.rs",
+      old=open('/verif/seeded/C06/patch.diff').read() and "__FROM_PATCH__", new="", expect="c06.zip|uint::boxed::cmp", patch="/verif/seeded/C06/patch.diff"),
+ dict(name="lincomb_carry_dropped", prop="C09", file="src/modular/lincomb.rs",
+      old="            let carry = ret.adc_assign(&buf, Limb::ZERO);", new="            ret.adc_assign(&buf, Limb::ZERO);",
+      expect="carry|modular::lincomb::lincomb_boxed_monty_form|adc_assign"),
+ dict(name="int_wrapping_shr_route", prop="C15", file="src/int/shr.rs",
+      old="__FROM_PATCH__", new="", expect="c15.forward|int::shr::<impl num_traits::WrappingShr for int::Int<_>>::wrapping_shr", patch="/verif/seeded/C15b/patch.diff"),
+ dict(name="der_drop_first_octet", prop="C18", file="src/uint/encoding/der.rs",
+      old="__FROM_PATCH__", new="", expect="capguard.truncate|uint::encoding::der", patch="/verif/seeded/C18b/patch.diff"),
  # --- C18
  dict(name="der_saturating_sub", prop="C18", file="src/uint/encoding/der.rs",
       old="        let offset = array\n            .len()\n            .checked_sub(bytes.len().try_into()?)\n            .ok_or(Tag::Integer.length_error())?;\n",
@@ -95,10 +105,13 @@ def main():
         os.unlink(os.path.join(OUT, f))
     index = []
     for m in M:
-        src = subprocess.check_output(["git", "-C", "/repo", "show", "HEAD:" + m["file"]], text=True)
-        assert m["old"] in src, (m["name"], "old text not found")
-        new = src.replace(m["old"], m["new"], m.get("count", 1))
-        diff = "".join(difflib.unified_diff(src.splitlines(True), new.splitlines(True), "a/" + m["file"], "b/" + m["file"]))
+        if m.get("patch"):
+            diff = open(m["patch"]).read()
+        else:
+            src = subprocess.check_output(["git", "-C", "/repo", "show", "HEAD:" + m["file"]], text=True)
+            assert m["old"] in src, (m["name"], "old text not found")
+            new = src.replace(m["old"], m["new"], m.get("count", 1))
+            diff = "".join(difflib.unified_diff(src.splitlines(True), new.splitlines(True), "a/" + m["file"], "b/" + m["file"]))
         fn = "%s-%s.patch" % (m["prop"], m["name"])
         with open(os.path.join(OUT, fn), "w") as fh:
             fh.write(diff)
